@@ -269,6 +269,8 @@ func (t *sqlTr) expr(e ast.Expr) string {
 			case fn.Name == "string" && len(x.Args) == 1:
 				f, _ := t.recvField(x.Args[0], "string(...)", "enum")
 				return "(.enumStr " + f + ")"
+			case fn.Name == "spaceAfterInt" && len(x.Args) == 1:
+				return "(.spaceAfterInt " + t.expr(x.Args[0]) + ")"
 			case fn.Name == "formatBoolUpper" && len(x.Args) == 1:
 				f, _ := t.recvField(x.Args[0], "formatBoolUpper", "bool")
 				return "(.boolUpper " + f + ")"
